@@ -900,6 +900,12 @@ func (t *AwaitTxConfirmationAction) Execute(services *SwapServices, swap *SwapDa
 type ValidateTxAndPayClaimInvoiceAction struct{}
 
 func (p *ValidateTxAndPayClaimInvoiceAction) Execute(services *SwapServices, swap *SwapData) EventType {
+	// The claim invoice is already paid (e.g. we were restarted after the
+	// payment result was stored): whatever fails now, never give up the swap
+	// key again - go on claiming with the preimage.
+	if swap.ClaimPreimage != "" {
+		return Event_ActionSucceeded
+	}
 	lc := services.lightning
 	onchain, _, validator, err := services.getOnChainServices(swap.GetChain())
 	if err != nil {
@@ -917,11 +923,6 @@ func (p *ValidateTxAndPayClaimInvoiceAction) Execute(services *SwapServices, swa
 	}
 	if !ok {
 		return swap.HandleError(errors.New("tx is not valid"))
-	}
-	// The claim invoice is already paid (e.g. we were restarted after the
-	// payment result was stored): never pay or give up again, go on claiming.
-	if swap.ClaimPreimage != "" {
-		return Event_ActionSucceeded
 	}
 	if !policy.AllowNewClaimPayment {
 		preimage, err := lc.RecoverClaimPayment(swap.OpeningTxBroadcasted.Payreq)
